@@ -43,6 +43,18 @@ CHECKS['C05'] = dict(
     technique="Coq proof (induction on the formula; finite case sweep per level) + exact-text correspondence + exhaustive small-trace telingo oracle",
     design="6.C05")
 
+CHECKS['C14'] = dict(
+    text="Asp/Print.v is a Coq model of every __str__ of ASP_elements (both printing modes); on every run each program of the stream "
+         "(corpus + wide generator) is compiled once, its element tree serialised, and the model must reproduce the implementation's text "
+         "byte for byte in default AND function-term mode. Theorem C14_unwrapped_atoms_unchanged (all atoms, any number/values of "
+         "attributes): an atom without inherited attributes prints identically in both modes. For wrapped groups the property is decided "
+         "per program by the oracle: both outputs are parsed with clingo.ast, function terms are flattened and compared argument by "
+         "argument with the default program; one shape per predicate is checked. (A general Coq theorem for wrapped groups - flattening "
+         "the function-mode tree gives the default argument list when groups are contiguous - is not proved yet: partial.)",
+    note="Trusted: Coq kernel; serialiser of the element tree; clingo.ast as reader of both outputs; inflect results taken from the tree.",
+    technique="Coq printer model with byte-exact two-mode correspondence + theorem for unwrapped atoms + clingo.ast flatten oracle",
+    design="6.C14")
+
 NOT_YET = {}
 
 
